@@ -5,7 +5,8 @@
 //     identical registration right behind it, control connection dropped after / before the reply / during traffic /
 //     while the registration is parked after each of its four steps, replacement by re-login, heartbeat timeout,
 //     control stream ended with pooled work connections, registration failing part-way, name taken concurrently,
-//     connection cut in the login window, stranger's refused join of a group with several members)
+//     connection cut in the login window, stranger's refused join of a group with several members, udp proxy closed
+//     during its work-connection fetch, proxy closed by A / registered by W / A's session ends)
 //     on two real servers (explicit ports + tcp mux; server-chosen ports + no mux + heartbeat timeout).
 //     After each: three-way ledger (model / verif snapshot / OS sockets) restricted to the case, re-registration
 //     probe, traffic probes of the re-registered proxy, of the bystander and of a sibling proxy of the same session,
@@ -66,7 +67,7 @@ transport.tcpMux = %v
 func main() {
 	defer h.DisableGC(12)()
 	run = h.NewRun(prop, "fault_enumeration")
-	run.Rule = "fault cases: the product (server in {explicit ports+tcpmux, server-chosen ports+no mux+heartbeat}) x (11 proxy kinds) x (termination paths: 11 on the first server, 4 on the second, plus the refused stranger join for the three group kinds and the cut in the login window for all kinds on both) is enumerated completely in every tier, then repeated with other PRNG-chosen registration variants (domains, locations, sub domain, route user, encryption, compression, limiter, pool size, bystander in the same group) and hook-point delays; distinct = (server, kind, path, variant, hook trace signatures); leak cycles and wrapper-contract configurations count once each"
+	run.Rule = "fault cases: the product (server in {explicit ports+tcpmux, server-chosen ports+no mux+heartbeat}) x (11 proxy kinds) x (termination paths: 11 on the first server, 4 on the second, plus the refused stranger join for the three group kinds and the cut in the login window for all kinds on both, the udp close-during-fetch orders, and first of all the cross-session sequence close / identical registration by another session / end of the first session for all kinds on both) is enumerated completely in every tier, then repeated with other PRNG-chosen registration variants (domains, locations, sub domain, route user, encryption, compression, limiter, pool size, bystander in the same group) and hook-point delays; distinct = (server, kind, path, variant, hook trace signatures); leak cycles and wrapper-contract configurations count once each"
 	run.Assumptions = []string{
 		"explicit close is acknowledged by a Ping/Pong on the same session (frps handles a session's messages in order); the re-registration right after the close request is sent with no barrier in between",
 		"a session end is acknowledged when its run id has left the server's session table (bounded 15 s); 'shortly after' is read as: after that point",
@@ -86,28 +87,38 @@ func main() {
 	combos := allCombos()
 	rounds := run.N(2, 24)
 	extra := run.N(50, 240)
-	nCases := rounds*len(combos) + extra
+	cross, nSafe := crossCombos()
+	nCross := rounds * len(cross)
+	nCases := nCross + rounds*len(combos) + extra
 	run.Set("combos", len(combos))
 	start := time.Now()
 	one := func(c *h.Case) {
 		var cb combo
-		if c.Idx < rounds*len(combos) {
+		switch i := c.Idx - nCross; {
+		case i < 0:
+			cb = cross[c.Idx%len(cross)]
+		case i < rounds*len(combos):
 			// interleave the slow heartbeat cases with the others
-			cb = combos[(c.Idx*37)%len(combos)]
-		} else {
+			cb = combos[(i*37)%len(combos)]
+		default:
 			cb = combos[c.Rng.Intn(len(combos))]
 		}
 		runCase(c, envs[cb.env], cb.kind, cb.path)
 	}
+	// cross-session sequences first (see crossCombos)
+	for r := 0; r < rounds; r++ {
+		run.ParallelRange(r*len(cross), nSafe, 14, one)
+		run.ParallelRange(r*len(cross)+nSafe, len(cross)-nSafe, 14, one)
+	}
 	// The collector is off while cases run (a finalizer must not close what the server leaked). Between rounds no
 	// case is in progress, so the garbage of the finished round can be collected without masking anything.
 	for r := 0; r < rounds; r++ {
-		run.ParallelRange(r*len(combos), len(combos), 14, one)
+		run.ParallelRange(nCross+r*len(combos), len(combos), 14, one)
 		if rounds > 2 {
 			runtime.GC()
 		}
 	}
-	run.ParallelRange(rounds*len(combos), extra, 14, one)
+	run.ParallelRange(nCross+rounds*len(combos), extra, 14, one)
 	if rounds > 2 {
 		runtime.GC()
 	}
